@@ -166,15 +166,21 @@ def Topo {L : Type} (order : List (HTree L)) : Prop :=
     rebuilding the node from interpreted children. -/
 def nodeStep (I : Step) (label : List Term → Term) (results : List Term) : Term := ap I (label results)
 
-/-! ## 3. `anf` on the graph of identities (interpreter.py:159-186) -/
+/-! ## 3. `anf` on the graph of identities (interpreter.py:159-186)
+
+  The algorithm only sees node identities and `children(h)` (minus atoms), so it is modelled over
+  `Nat` identities and an arbitrary children function (class `Kids`); `anf g root` instantiates it with
+  the adjacency list the harness observes.  Same statement-by-statement model as Model/C18.lean. -/
 
 abbrev Graph := List (Nat × List Nat)
 
-def dGet {α : Type} : List (Nat × α) → Nat → Option α
+/-- `d.get(k)` on an insertion-ordered dict. -/
+def dGet {κ α : Type} [DecidableEq κ] : List (κ × α) → κ → Option α
   | [], _ => none
   | (k, v) :: r, n => if k = n then some v else dGet r n
 
-def dSet {α : Type} : List (Nat × α) → Nat → α → List (Nat × α)
+/-- `d[k] = v`: overwrite in place, or append a new key at the end. -/
+def dSet {κ α : Type} [DecidableEq κ] : List (κ × α) → κ → α → List (κ × α)
   | [], n, v => [(n, v)]
   | (k, w) :: r, n, v => if k = n then (k, v) :: r else (k, w) :: dSet r n v
 
@@ -184,10 +190,21 @@ def kidsOf (g : Graph) (i : Nat) : List Nat :=
   | some ks => ks
   | none => []
 
+/-- The children function `anf` walks (`children(h)` with `stop = is_atom`). -/
+class Kids where
+  ch : Nat → List Nat
+
+def children [Kids] (n : Nat) : List Nat := Kids.ch n
+
+/-- Reachability from the root along `children`: the node set of the DAG. -/
+inductive Reach [Kids] (r : Nat) : Nat → Prop
+  | refl : Reach r r
+  | step {n c : Nat} : Reach r n → c ∈ children n → Reach r c
+
 structure Bfs where
-  stack : List Nat                       -- `stack` (deque, first-in first-out)
-  c2p : List (Nat × List Nat)            -- `child_to_parents`
-  counts : List (Nat × Int)              -- `children_counts`
+  stack : List Nat                       -- `stack` (a deque used first-in first-out)
+  c2p : List (Nat × List Nat)            -- `child_to_parents` (defaultdict(list))
+  counts : List (Nat × Int)              -- `children_counts` (defaultdict(int))
   leaves : List Nat
 
 /-- The `for c in children(h)` loop. -/
@@ -195,61 +212,184 @@ def visit (h : Nat) : List Nat → Bfs → Bfs
   | [], s => s
   | c :: cs, s =>
     let stack := if (dGet s.c2p c).isNone then s.stack ++ [c] else s.stack
-    let old := match dGet s.c2p c with
-      | some l => l
-      | none => []
-    let cnt := match dGet s.counts h with
-      | some k => k
-      | none => 0
-    visit h cs { s with stack := stack, c2p := dSet s.c2p c (old ++ [h]), counts := dSet s.counts h (cnt + 1) }
+    let c2p := dSet s.c2p c ((dGet s.c2p c).getD [] ++ [h])
+    let counts := dSet s.counts h ((dGet s.counts h).getD 0 + 1)
+    visit h cs { s with stack := stack, c2p := c2p, counts := counts }
 
-/-- First `while stack:` loop; `none` = out of fuel. -/
-def bfs (g : Graph) : Nat → Bfs → Option Bfs
+/-- `while stack:` of the first phase; `none` = out of fuel. -/
+def bfs [Kids] : Nat → Bfs → Option Bfs
   | 0, _ => none
   | fuel + 1, s =>
     match s.stack with
     | [] => some s
     | h :: rest =>
-      let s1 := visit h (kidsOf g h) { s with stack := rest }
-      let zero := match dGet s1.counts h with
-        | some k => k == 0
-        | none => true
-      bfs g fuel (if zero then { s1 with leaves := s1.leaves ++ [h] } else s1)
+      let s1 := visit h (children h) { s with stack := rest }
+      let s2 := if (dGet s1.counts h).getD 0 = 0 then { s1 with leaves := s1.leaves ++ [h] } else s1
+      bfs fuel s2
 
 /-- The `for parent in child_to_parents[h]` loop on (leaves, children_counts). -/
 def relax : List Nat → List Nat × List (Nat × Int) → List Nat × List (Nat × Int)
   | [], s => s
   | p :: ps, (q, cnt) =>
-    let k := (match dGet cnt p with
-      | some k => k
-      | none => 0) - 1
-    relax ps (if k == 0 then q ++ [p] else q, dSet cnt p k)
+    let k := (dGet cnt p).getD 0 - 1
+    relax ps (if k = 0 then q ++ [p] else q, dSet cnt p k)
 
-/-- `env[h] = h` on an OrderedDict of keys. -/
-def keySet (env : List Nat) (h : Nat) : List Nat := if env.contains h then env else env ++ [h]
+/-- `env[h] = h` on an OrderedDict (keys only). -/
+def keySet (env : List Nat) (h : Nat) : List Nat := if h ∈ env then env else env ++ [h]
 
-/-- Second `while leaves:` loop. -/
+/-- `while leaves:` of the second phase; state = (leaves, children_counts, env). -/
 def kahn (c2p : List (Nat × List Nat)) : Nat → List Nat → List (Nat × Int) → List Nat → Option (List Nat)
   | 0, _, _, _ => none
   | fuel + 1, leaves, cnt, env =>
     match leaves with
     | [] => some env
     | h :: rest =>
-      let parents := match dGet c2p h with
-        | some l => l
-        | none => []
-      let (q, cnt') := relax parents (rest, cnt)
+      let (q, cnt') := relax ((dGet c2p h).getD []) (rest, cnt)
       kahn c2p fuel q cnt' (keySet env h)
 
-/-- `anf(x)` as the list of keys of the returned OrderedDict; fuel = number of graph nodes + 2. -/
-def anf (g : Graph) (root : Nat) : Option (List Nat) :=
-  let fuel := g.length + 2
-  match bfs g fuel ⟨[root], [], [], []⟩ with
+/-- `anf(x)` as the list of keys of the returned OrderedDict, with an iteration budget for both loops. -/
+def anfWith [Kids] (fuel : Nat) (x : Nat) : Option (List Nat) :=
+  match bfs fuel ⟨[x], [], [], []⟩ with
   | none => none
   | some s =>
-    match kahn s.c2p fuel s.leaves s.counts [root] with
+    match kahn s.c2p fuel s.leaves s.counts [x] with
     | none => none
-    | some env => some (env.erase root ++ [root])
+    | some env => some (env.erase x ++ [x])          -- `env.move_to_end(x)`
+
+/-- Every child of every element occurs strictly earlier. -/
+def Topological [Kids] (ord : List Nat) : Prop :=
+  ∀ pre n post, ord = pre ++ n :: post → ∀ c ∈ children n, c ∈ pre
+
+/-- `anf` on an observed adjacency list; budget = number of listed nodes + 2. -/
+def anf (g : Graph) (root : Nat) : Option (List Nat) :=
+  @anfWith ⟨kidsOf g⟩ (g.length + 2) root
+
+/-! ### `stack_reinterpret` end to end on a hash-consed expression -/
+
+mutual
+  /-- All nodes of the expression (with repetitions), the node itself first. -/
+  def HTree.subnodes {L : Type} : HTree L → List (HTree L)
+    | HTree.node i l ks => HTree.node i l ks :: subnodesList ks
+  def subnodesList {L : Type} : List (HTree L) → List (HTree L)
+    | [] => []
+    | k :: ks => k.subnodes ++ subnodesList ks
+end
+
+mutual
+  def HTree.size {L : Type} : HTree L → Nat
+    | HTree.node _ _ ks => sizeList ks + 1
+  def sizeList {L : Type} : List (HTree L) → Nat
+    | [] => 0
+    | k :: ks => k.size + sizeList ks
+end
+
+/-- The object with identity `i` (python: the dict key). -/
+def HTree.find {L : Type} (root : HTree L) (i : Nat) : Option (HTree L) :=
+  root.subnodes.find? (fun n => n.id == i)
+
+/-- `children(h)` by identity. -/
+@[reducible] def htKids {L : Type} (root : HTree L) : Kids :=
+  ⟨fun i => match root.find i with
+    | some n => n.kids.map HTree.id
+    | none => []⟩
+
+/-- Identities back to objects; `none` if an identity is unknown. -/
+def findAll {L : Type} (root : HTree L) : List Nat → Option (List (HTree L))
+  | [] => some []
+  | i :: is =>
+    match root.find i, findAll root is with
+    | some n, some ns => some (n :: ns)
+    | _, _ => none
+
+/-- `anf(x)` on the expression itself: the keys of the OrderedDict, as objects. -/
+def anfTree {L : Type} (root : HTree L) : Option (List (HTree L)) :=
+  match @anfWith (htKids root) (root.subnodes.length + 2) root.id with
+  | some ids => findAll root ids
+  | none => none
+
+/-- `stack_reinterpret(x)`: anf, then the single pass over `env.items()`. -/
+def stackReinterpret {L R : Type} (f : L → List R → R) (root : HTree L) : Option R :=
+  match anfTree root with
+  | some order => stackEval f order root
+  | none => none
+
+/-- Hash-consing: within the expression, identity determines the object. -/
+def Consistent {L : Type} (root : HTree L) : Prop :=
+  ∀ a ∈ root.subnodes, ∀ b ∈ root.subnodes, a.id = b.id → a = b
+
+mutual
+  /-- Forget identities (the recursive reinterpreter never looks at them). -/
+  def HTree.strip {L : Type} : HTree L → HTree L
+    | HTree.node _ l ks => HTree.node 0 l (stripList ks)
+  def stripList {L : Type} : List (HTree L) → List (HTree L)
+    | [] => []
+    | k :: ks => k.strip :: stripList ks
+end
+
+/-! ### A `Term` as a tree of `interpret(cls, *args)` requests
+
+  The label of a node is everything `interpret` receives besides the reinterpreted children: the
+  class and the atom arguments, i.e. a function rebuilding the node from its (reinterpreted) children in
+  `_ast_values` order.  Children lists of the wrong length cannot occur; the labels then keep the
+  original children. -/
+
+def zipKeys : List (Name × Term) → List Term → List (Name × Term)
+  | (n, _) :: σ, v :: vs => (n, v) :: zipKeys σ vs
+  | σ, _ => σ
+
+def zipDelta : List (Name × Term × Term) → List Term → List (Name × Term × Term)
+  | (n, _, _) :: ts, p :: d :: rs => (n, p, d) :: zipDelta ts rs
+  | ts, _ => ts
+
+mutual
+  def skel : Term → HTree (List Term → Term)
+    | Term.var n d => HTree.node 0 (fun _ => Term.var n d) []
+    | Term.num v d => HTree.node 0 (fun _ => Term.num v d) []
+    | Term.tensor i d a => HTree.node 0 (fun _ => Term.tensor i d a) []
+    | Term.slice n a b c d => HTree.node 0 (fun _ => Term.slice n a b c d) []
+    | Term.unary op a =>
+      HTree.node 0 (fun rs => match rs with
+        | [a'] => Term.unary op a'
+        | _ => Term.unary op a) [skel a]
+    | Term.binary op l r =>
+      HTree.node 0 (fun rs => match rs with
+        | [l', r'] => Term.binary op l' r'
+        | _ => Term.binary op l r) [skel l, skel r]
+    | Term.reduce op a vars =>
+      HTree.node 0 (fun rs => match rs with
+        | [a'] => Term.reduce op a' vars
+        | _ => Term.reduce op a vars) [skel a]
+    | Term.subs a σ =>
+      HTree.node 0 (fun rs => match rs with
+        | a' :: vs => Term.subs a' (zipKeys σ vs)
+        | [] => Term.subs a σ) (skel a :: skelSubs σ)
+    | Term.stack n ps => HTree.node 0 (fun rs => Term.stack n rs) (skelList ps)
+    | Term.cat n pn sizes ps => HTree.node 0 (fun rs => Term.cat n pn sizes rs) (skelList ps)
+    | Term.lambda n size b =>
+      HTree.node 0 (fun rs => match rs with
+        | [b'] => Term.lambda n size b'
+        | _ => Term.lambda n size b) [skel b]
+    | Term.independent fn rv bv dv size =>
+      HTree.node 0 (fun rs => match rs with
+        | [fn'] => Term.independent fn' rv bv dv size
+        | _ => Term.independent fn rv bv dv size) [skel fn]
+    | Term.align a names =>
+      HTree.node 0 (fun rs => match rs with
+        | [a'] => Term.align a' names
+        | _ => Term.align a names) [skel a]
+    | Term.contraction r b vars ts => HTree.node 0 (fun rs => Term.contraction r b vars rs) (skelList ts)
+    | Term.finitary op args => HTree.node 0 (fun rs => Term.finitary op rs) (skelList args)
+    | Term.delta ts => HTree.node 0 (fun rs => Term.delta (zipDelta ts rs)) (skelDelta ts)
+  def skelList : List Term → List (HTree (List Term → Term))
+    | [] => []
+    | t :: ts => skel t :: skelList ts
+  def skelSubs : List (Name × Term) → List (HTree (List Term → Term))
+    | [] => []
+    | (_, t) :: ts => skel t :: skelSubs ts
+  def skelDelta : List (Name × Term × Term) → List (HTree (List Term → Term))
+    | [] => []
+    | (_, p, d) :: ts => skel p :: skel d :: skelDelta ts
+end
 
 /-- Decidable check used at run time on `anf`'s output: children strictly earlier, no duplicates,
     root last. -/
